@@ -337,11 +337,15 @@ func runData(t *testing.T, c *Case) result {
 			}
 			return (&net.Dialer{}).DialContext(ctx, network, addr)
 		}
-		n, err := webhook.New(&webhook.WebhookConfig{URL: amcommoncfg.SecretTemplateURL(srv.URL), HTTPConfig: &commoncfg.HTTPClientConfig{}, MaxAlerts: dc.MaxAlerts},
-			theTemplate(t), promslog.NewNopLogger(), commoncfg.WithKeepAlivesDisabled(), commoncfg.WithDialContextFunc(dial))
-		if err != nil {
-			t.Fatal(err)
+		newNotifier := func() *webhook.Notifier {
+			n, err := webhook.New(&webhook.WebhookConfig{URL: amcommoncfg.SecretTemplateURL(srv.URL), HTTPConfig: &commoncfg.HTTPClientConfig{}, MaxAlerts: dc.MaxAlerts},
+				theTemplate(t), promslog.NewNopLogger(), commoncfg.WithKeepAlivesDisabled(), commoncfg.WithDialContextFunc(dial))
+			if err != nil {
+				t.Fatal(err)
+			}
+			return n
 		}
+		n := newNotifier()
 		now = time.Now()
 		base := notify.WithGroupKey(context.Background(), "{}:{alertname=\"Down\"}")
 		base = notify.WithReceiverName(base, "team")
@@ -357,58 +361,66 @@ func runData(t *testing.T, c *Case) result {
 		if len(steps) == 0 {
 			steps = []HookStep{{}, {}, {}}
 		}
-		for si, st := range steps {
-			hookMu.Lock()
-			hookBody, hookHits = nil, 0
-			hookMu.Unlock()
-			ctx, cancel := context.WithCancel(base)
-			down.Store(st.Fault == "down")
-			switch st.Fault {
-			case "ctx-cancelled":
-				cancel()
-			case "ctx-expired":
-				cancel()
-				ctx, cancel = context.WithDeadline(base, time.Now().Add(-time.Second))
-			}
-			batch, batchJ := inputs, dc.Alerts
-			if st.Other {
-				batch, batchJ = others, otherBatch
-			}
-			retry, err := n.Notify(ctx, batch...)
-			cancel()
-			hookMu.Lock()
-			body, hits := hookBody, hookHits
-			hookMu.Unlock()
-			stepTags = append(stepTags, "webhook-step/"+map[string]string{"": "up"}[st.Fault]+st.Fault)
-			if st.Fault != "" {
-				if err == nil || hits != 0 {
-					stepViol = append(stepViol, [2]string{"webhook-transport-failure-not-reported", fmt.Sprintf("step %d (%s): err=%v, requests received=%d", si+1, st.Fault, err, hits)})
+		runSteps := func(n *webhook.Notifier, steps []HookStep) {
+			for si, st := range steps {
+				hookMu.Lock()
+				hookBody, hookHits = nil, 0
+				hookMu.Unlock()
+				ctx, cancel := context.WithCancel(base)
+				down.Store(st.Fault == "down")
+				switch st.Fault {
+				case "ctx-cancelled":
+					cancel()
+				case "ctx-expired":
+					cancel()
+					ctx, cancel = context.WithDeadline(base, time.Now().Add(-time.Second))
 				}
-				continue
+				batch, batchJ := inputs, dc.Alerts
+				if st.Other {
+					batch, batchJ = others, otherBatch
+				}
+				retry, err := n.Notify(ctx, batch...)
+				cancel()
+				hookMu.Lock()
+				body, hits := hookBody, hookHits
+				hookMu.Unlock()
+				stepTags = append(stepTags, "webhook-step/"+map[string]string{"": "up"}[st.Fault]+st.Fault)
+				if st.Fault != "" {
+					if err == nil || hits != 0 {
+						stepViol = append(stepViol, [2]string{"webhook-transport-failure-not-reported", fmt.Sprintf("step %d (%s): err=%v, requests received=%d", si+1, st.Fault, err, hits)})
+					}
+					continue
+				}
+				if err != nil || retry {
+					stepViol = append(stepViol, [2]string{"webhook-healthy-endpoint-delivery-failed", fmt.Sprintf("step %d: endpoint up, answered 200 to whatever it could decode, but Notify returned retry=%v err=%v; body %q", si+1, retry, err, body)})
+				}
+				var msg webhook.Message
+				trailing, derr := oneJSONDocument(body, &msg)
+				if derr != nil || msg.Data == nil {
+					stepViol = append(stepViol, [2]string{"payload-not-json", fmt.Sprintf("step %d: %v: %q", si+1, derr, body)})
+					continue
+				}
+				if trailing != "" {
+					stepViol = append(stepViol, [2]string{"payload-has-trailing-or-stale-bytes", fmt.Sprintf("step %d: the request body holds more than one JSON document; after the first: %q", si+1, trailing)})
+				}
+				sn := seenOf(msg.Data, msg.TruncatedAlerts)
+				got := []map[string]string{}
+				for _, a := range sn.Alerts {
+					got = append(got, a.Labels)
+				}
+				if want := labelsOf(batchJ, dc.MaxAlerts); mustJSON(got) != want {
+					stepViol = append(stepViol, [2]string{"payload-not-the-current-batch", fmt.Sprintf("step %d: the (first) document of the request lists alerts %s, the batch being delivered is %s", si+1, mustJSON(got), want)})
+				}
+				if !st.Other {
+					rounds = append(rounds, sn)
+				}
 			}
-			if err != nil || retry {
-				stepViol = append(stepViol, [2]string{"webhook-healthy-endpoint-delivery-failed", fmt.Sprintf("step %d: endpoint up, answered 200 to whatever it could decode, but Notify returned retry=%v err=%v; body %q", si+1, retry, err, body)})
-			}
-			var msg webhook.Message
-			trailing, derr := oneJSONDocument(body, &msg)
-			if derr != nil || msg.Data == nil {
-				stepViol = append(stepViol, [2]string{"payload-not-json", fmt.Sprintf("step %d: %v: %q", si+1, derr, body)})
-				continue
-			}
-			if trailing != "" {
-				stepViol = append(stepViol, [2]string{"payload-has-trailing-or-stale-bytes", fmt.Sprintf("step %d: the request body holds more than one JSON document; after the first: %q", si+1, trailing)})
-			}
-			sn := seenOf(msg.Data, msg.TruncatedAlerts)
-			got := []map[string]string{}
-			for _, a := range sn.Alerts {
-				got = append(got, a.Labels)
-			}
-			if want := labelsOf(batchJ, dc.MaxAlerts); mustJSON(got) != want {
-				stepViol = append(stepViol, [2]string{"payload-not-the-current-batch", fmt.Sprintf("step %d: the (first) document of the request lists alerts %s, the batch being delivered is %s", si+1, mustJSON(got), want)})
-			}
-			if !st.Other {
-				rounds = append(rounds, sn)
-			}
+		}
+		runSteps(n, steps)
+		if len(rounds) == 0 {
+			// every delivery of the batch through this notifier failed (reported above): take the payload for the
+			// model comparison from a fresh notifier
+			runSteps(newNotifier(), []HookStep{{}})
 		}
 		if len(rounds) == 0 {
 			t.Fatalf("no delivery of the batch reached the endpoint: %v", stepViol)
